@@ -258,6 +258,71 @@ def shard_reused_structure(sh, combos, seed):
             sh.count("builds_on_a_reused_structure")
 
 
+def shard_layout_after_use(sh, combos, seed):
+    """The published layout does not change by being USED: on every (platform, config, log) given, both
+    facades are built on a block full of values beyond the labels, every item is read (value, repr)
+    and the facade's members are evaluated; afterwards every live accessor object publishes what a
+    freshly built one does (positions, widths, bit fields, labels, writability)."""
+    from checks.c11 import make_async, make_threaded, read_members
+    from geckolib.driver import GeckoAsyncStructure
+    from vlib import layout as L
+    from vlib import tables as T
+    from vlib.common import rng
+
+    T.install_decl_capture()
+    for plat, c, l in combos:
+        r = rng("C18use", seed, plat, c, l)
+        fresh = GeckoAsyncStructure(None, None)
+        try:
+            T.load_struct(fresh, plat, c, l)
+        except Exception:
+            continue
+        want = {t: L.item_record(a) for t, a in fresh.accessors.items()}
+        for kind, maker in (("async", make_async), ("threaded", make_threaded)):
+            for block in (bytes([0xFF]) * 1024, bytes(r.randrange(256) for _ in range(1024))):
+                sh.evaluations += 1
+                try:
+                    spa, build = maker(plat, c, l, block)
+                    try:
+                        facade = build()
+                    except Exception:
+                        facade = None  # C11's subject; the structure was still used
+                    for a in list(spa.struct.accessors.values()):
+                        try:
+                            a.value
+                            repr(a)
+                        except Exception:
+                            pass
+                    if facade is not None:
+                        for obj in [facade] + list(getattr(facade, "all_automation_devices", []) or []):
+                            for name, thunk in read_members(obj):
+                                try:
+                                    thunk()
+                                except Exception:
+                                    pass
+                    # a patch that moves every item (what a partial update does)
+                    try:
+                        spa.struct.replace_status_block_segment(0, bytes(1024))
+                    except Exception:
+                        pass
+                except Exception:
+                    sh.count("layout_after_use_setup_failed")
+                    continue
+                got = {t: L.item_record(a) for t, a in spa.struct.accessors.items()}
+                wit = {"facade": kind, "tables": [plat, c, l]}
+                if set(got) != set(want):
+                    sh.violation(f"C18:after-use:{plat}:items", f"after building and reading a {kind} facade on {plat} C{c} S{l} the structure publishes other items than a fresh one", wit)
+                    continue
+                for t in want:
+                    diff = [f for f in want[t] if got[t].get(f) != want[t][f]]
+                    if diff:
+                        stem = f"{plat}-cfg-{c}" if t in T.import_stem(f"{plat}-cfg-{c}").GeckoConfigStruct(GeckoAsyncStructure(None, None)).accessors else f"{plat}-log-{l}"
+                        sh.violation(f"C18:after-use:{stem}/{t}:{'+'.join(diff)}", f"published item {stem}/{t}: {diff} changed by use ({kind} facade built and read on a block of unlabelled values): {[(f, want[t][f], got[t].get(f)) for f in diff][:2]!r:.300}", dict(wit, item=t, fields=diff))
+                        break
+                else:
+                    sh.count("layouts_unchanged_after_use")
+
+
 def compare_pin(run: Run, lay, pin):
     fields = ("cls", "pos", "type", "bitpos", "items", "size", "maxitems", "rw", "pub_pos", "pub_length", "pub_format", "pub_bitpos", "pub_bitmask", "pub_items", "pub_rw", "pub_tag")
     for stem, prec in pin.items():
@@ -361,6 +426,14 @@ def main(tier, seed):
         if tier == "quick":
             order = order[:320]
         run.absorb(run_shards("checks.c18", "shard_reused_structure", [{"combos": order[i::NCPU], "seed": seed} for i in range(NCPU) if order[i::NCPU]], timeout=3000))
+        # every (platform, log) at least once, and every (platform, config) at least once (thorough: all)
+        seen_, use = set(), []
+        for p_, c_, l_ in every:
+            if (p_, "l", l_) not in seen_ or (p_, "c", c_) not in seen_ or tier == "thorough":
+                use.append((p_, c_, l_))
+                seen_.add((p_, "l", l_))
+                seen_.add((p_, "c", c_))
+        run.absorb(run_shards("checks.c18", "shard_layout_after_use", [{"combos": use[i::NCPU], "seed": seed} for i in range(NCPU) if use[i::NCPU]], timeout=3000))
         if tier == "thorough":
             rederive_pin(run, pin)
         run.count("modules", len(lay))
@@ -372,6 +445,7 @@ def main(tier, seed):
         run.need(run.counters.get("pinned_items_compared", 0) >= 20000, "fewer than 20000 pinned items compared")
         run.need(run.counters.get("connections_with_the_named_tables", 0) >= 100, "too few real connections through the module lookup")
         run.need(len(run.sets.get("platforms_connected_blocking", ())) >= len(byplat) - 1, "the blocking client's lookup was not exercised for most platforms")
+        run.need(run.counters.get("layouts_unchanged_after_use", 0) >= 300, "too few layouts compared after use")
         run.need(run.counters.get("builds_on_a_reused_structure", 0) >= 300, "too few builds on long-lived structure objects")
     return run.finish(
         rule="every item of every table module in the working tree is enumerated (finite space, complete); a case is one (module,item) pair checked against the structural rules and, for pinned modules, field-by-field against the pinned layout; distinct = distinct (module,item) pairs",
